@@ -183,6 +183,13 @@ func registerEntryActions(spec treeSpec, cmds []*cobra.Command, variant int, des
 			return carapace.Batch(carapace.ActionValues("b1", "b2"), carapace.ActionMessage("batch message"), carapace.ActionFiles(".txt")).ToA().Prefix("p:").UniqueList(",")
 		},
 		func(i int) carapace.Action { return carapace.ActionExecCommand("no-such-command-anywhere")(func(output []byte) carapace.Action { return carapace.ActionValues() }) },
+		// external commands that fail without a word on stderr, or with line breaks only
+		func(i int) carapace.Action {
+			return carapace.ActionExecCommand("sh", "-c", "exit 3")(func(output []byte) carapace.Action { return carapace.ActionValues("unreachable") })
+		},
+		func(i int) carapace.Action {
+			return carapace.ActionExecCommand("sh", "-c", "printf '\\n\\n' >&2; echo out; exit 1")(func(output []byte) carapace.Action { return carapace.ActionValues("unreachable") })
+		},
 		func(i int) carapace.Action { return carapace.ActionImport([]byte("{not json")) },
 	}
 	for i, cs := range spec.Cmds {
